@@ -92,6 +92,9 @@ var lastKinds = []lastKind{
 	{name: "for-yield-post-body-decl", yields: true, mk: func(id *int) []*Stmt {
 		return []*Stmt{{K: "decl", Name: "j", E: lit(0)}, {K: "for", E: cmp("<", v("j"), lit(2)), Post: yS(bin("+", lit(43), v("j"))), Body: []*Stmt{evS(nid(id)), {K: "incdec", Name: "j", Op: "++"}, {K: "decl", Name: "j", E: lit(7)}}}}
 	}},
+	{name: "for-yield-post-body-var-decl", yields: true, mk: func(id *int) []*Stmt {
+		return []*Stmt{{K: "decl", Name: "j", E: lit(0)}, {K: "for", E: cmp("<", v("j"), lit(2)), Post: yS(bin("+", lit(43), v("j"))), Body: []*Stmt{evS(nid(id)), {K: "incdec", Name: "j", Op: "++"}, {K: "decl", T: "var", Name: "j", E: bin("*", v("j"), lit(100))}}}}
+	}},
 	{name: "for-infinite-yield-break", yields: true, mk: func(id *int) []*Stmt {
 		return []*Stmt{{K: "decl", Name: "j", E: lit(0)}, {K: "for", Body: []*Stmt{evS(nid(id)), yS(v("j")), {K: "incdec", Name: "j", Op: "++"}, {K: "if", E: cmp(">", v("j"), lit(1)), Body: []*Stmt{{K: "break"}}}}}}
 	}},
@@ -271,6 +274,10 @@ func rangeTable() []*Program {
 					if bodyKind == "mutate" && len(cd.muts) == 0 {
 						continue
 					}
+					if knownExclusions()["array-range-live-not-copied"] && cd.kind == "array" && form >= 3 && bodyKind == "mutate" && (n+1)%2 == 0 {
+						n++ // keep the numbering (and so the Vl/plain alternation) stable
+						continue // known finding: the live array is ranged, not a copy
+					}
 					if cd.unordered && (bodyKind == "break" || bodyKind == "continue") {
 						continue // which entries are visited before the n-th iteration is unspecified
 					}
@@ -295,6 +302,10 @@ func rangeProgram(name string, cd collDef, form int, op, bodyKind string, salt i
 	// wrapped in tr.Vl (evaluated exactly once)
 	body = append(body, &Stmt{K: "rawsimple", Raw: "c := " + cd.lit}, &Stmt{K: "rawsimple", Raw: "_ = c"}, &Stmt{K: "decl", Name: "n", E: lit(0)})
 	rs := &Stmt{K: "range", Op: op, Coll: &Coll{Kind: cd.kind, Lit: "c", KT: cd.kt, VT: cd.vt, Vl: 77, N: cd.n}}
+	if salt%2 == 0 {
+		rs.Coll.Vl = 0 // plain `range c`: an addressable range expression
+		p.tag("plain-range-expression")
+	}
 	var logArgs []*Expr
 	mk := func(nm, t string) string {
 		if op == "=" {
@@ -362,4 +373,68 @@ func rangeProgram(name string, cd collDef, form int, op, bodyKind string, salt i
 	p.Decls = []*Decl{{Kind: "gen", Name: name + "G", Params: []Param{{"a", "int"}}, Elem: "int", Body: body}}
 	p.Entries = []*Entry{{Name: name + "G", Kind: "drive", Call: "$P" + name + "G($0)", Elem: "int", Inputs: [][]int{{0}}, Scripts: []string{"std"}}}
 	return p
+}
+
+// ---- C03: scoping table: shadow site x declaration form --------------------------------------------
+
+func scopingTable() []*Program {
+	var out []*Program
+	n := 0
+	x := func() *Expr { return v("x") }
+	for _, form := range []string{"", "var", "var-typed"} {
+		decl := func(name string, e *Expr) *Stmt { return &Stmt{K: "decl", T: form, Name: name, E: e} }
+		sites := map[string][]*Stmt{
+			"nested-block": {{K: "block", Body: []*Stmt{decl("x", bin("*", x(), lit(10))), yS(x())}}, yS(x())},
+			"block-after-yield": {yS(x()), {K: "block", Body: []*Stmt{decl("x", bin("+", x(), lit(1))), yS(x()), {K: "assign", Name: "x", Op: "+=", E: lit(5)}, yS(x())}}, yS(x())},
+			"yielding-post-body-decl": {{K: "decl", Name: "j", E: lit(0)}, {K: "for", E: cmp("<", v("j"), lit(2)), Post: yS(bin("+", lit(40), v("j"))),
+				Body: []*Stmt{evS(1, v("j")), {K: "incdec", Name: "j", Op: "++"}, decl("j", bin("*", v("j"), lit(100))), evS(2, v("j"))}}, yS(v("j"))},
+			"yielding-post-outer-var": {{K: "decl", Name: "j", E: lit(0)}, {K: "for", E: cmp("<", v("j"), lit(2)), Post: yS(bin("+", x(), v("j"))),
+				Body: []*Stmt{evS(1, v("j")), {K: "incdec", Name: "j", Op: "++"}, decl("x", lit(-7)), evS(2, x())}}, yS(x())},
+			"case-clause": {{K: "switch", E: bin("%", v("a"), lit(2)), Cases: []*Case{{Exprs: []*Expr{lit(0), lit(1)}, Body: []*Stmt{decl("x", bin("*", x(), lit(10))), yS(x())}}}}, yS(x())},
+			"loop-body-each-iteration": {{K: "for", Init: &Stmt{K: "decl", Name: "i", E: lit(0)}, E: cmp("<", v("i"), lit(2)), Post: &Stmt{K: "incdec", Name: "i", Op: "++"},
+				Body: []*Stmt{evS(1), decl("x", bin("+", x(), v("i"))), yS(x()), {K: "incdec", Name: "x", Op: "++"}}}, yS(x())},
+			"second-half-of-combine": {{K: "if", E: cmp(">", v("a"), lit(0)), Body: []*Stmt{yS(lit(1))}}, {K: "block", Body: []*Stmt{decl("x", bin("*", x(), lit(10))), yS(x())}}, yS(x())},
+			"decl-then-yielding-if": {decl("y", x()), {K: "if", E: cmp(">", v("a"), lit(0)), Body: []*Stmt{yS(v("y")), {K: "incdec", Name: "y", Op: "++"}}}, yS(bin("+", v("y"), x()))},
+			"closure-sees-later-update": {{K: "closure", Name: "f", Fn: &FuncLit{Params: []Param{{"p", "int"}}, Result: "int", Body: []*Stmt{{K: "incdec", Name: "x", Op: "++"}}, Ret: bin("+", x(), v("p"))}},
+				yS(&Expr{K: "call", Name: "f", Args: []*Expr{lit(0)}}), {K: "block", Body: []*Stmt{decl("x", lit(100)), yS(&Expr{K: "call", Name: "f", Args: []*Expr{x()}})}}, {K: "assign", Name: "x", Op: "=", E: lit(50)}, yS(&Expr{K: "call", Name: "f", Args: []*Expr{lit(0)}}), yS(x())},
+		}
+		if form == "" {
+			// initialiser positions only allow :=
+			sites["if-init"] = []*Stmt{{K: "if", Init: &Stmt{K: "decl", Name: "x", E: bin("*", x(), lit(10))}, E: cmp(">", x(), lit(0)), Body: []*Stmt{yS(x())}, HasElse: true, Else: []*Stmt{yS(bin("-", lit(0), x()))}}, yS(x())}
+			sites["for-init"] = []*Stmt{{K: "for", Init: &Stmt{K: "decl", Name: "x", E: bin("*", x(), lit(10))}, E: cmp("<", x(), lit(200)), Post: &Stmt{K: "assign", Name: "x", Op: "+=", E: lit(90)}, Body: []*Stmt{evS(1, x()), yS(x())}}, yS(x())}
+			sites["switch-init"] = []*Stmt{{K: "switch", Init: &Stmt{K: "decl", Name: "x", E: bin("*", x(), lit(10))}, Cases: []*Case{{Exprs: []*Expr{cmp(">", x(), lit(10))}, Body: []*Stmt{yS(x())}}, {Default: true, Body: []*Stmt{yS(bin("-", lit(0), x()))}}}}, yS(x())}
+			sites["range-key"] = []*Stmt{{K: "range", Name: "x", Op: ":=", Coll: &Coll{Kind: "int", Lit: "2", KT: "int"}, Body: []*Stmt{evS(1), yS(x())}}, yS(x())}
+			sites["range-value"] = []*Stmt{{K: "range", Name: "_", Name2: "x", Op: ":=", Coll: &Coll{Kind: "slice", Lit: "[]int{7, 8}", KT: "int", VT: "int"}, Body: []*Stmt{evS(1), yS(x()), {K: "incdec", Name: "x", Op: "++"}}}, yS(x())}
+			sites["typeswitch-binding"] = []*Stmt{{K: "tswitch", Name: "x", Raw: "tr.Any(x * 6)", Cases: []*Case{{Types: []string{"int"}, Body: []*Stmt{yS(vt("x", "int"))}}, {Default: true, Body: []*Stmt{yS(lit(-1))}}}}, yS(x())}
+			sites["consumer-loop-var"] = []*Stmt{{K: "closure", Name: "g", Fn: &FuncLit{Gen: true, Elem: "int", Params: []Param{{"p", "int"}}, Body: []*Stmt{yS(v("p")), yS(bin("+", v("p"), lit(1)))}}},
+				{K: "crange", Name: "x", Op: ":=", Iter: &IterExpr{K: "var", Name: "g", Args: []*Expr{x()}, Elem: "int"}, Body: []*Stmt{evS(1), {K: "decl", Name: "x", E: bin("*", x(), lit(2))}, yS(x())}}, yS(x())}
+		}
+		names := make([]string, 0, len(sites))
+		for k := range sites {
+			names = append(names, k)
+		}
+		sortStrings(names)
+		for _, site := range names {
+			n++
+			name := fmt.Sprintf("V%03d", n)
+			body := append([]*Stmt{{K: "decl", Name: "x", E: bin("+", v("a"), lit(1))}}, sites[site]...)
+			f := form
+			if f == "" {
+				f = ":="
+			}
+			p := &Program{Name: name, Profile: "scoping-table", Tags: []string{"shadow", "site:" + site, "form:" + f}}
+			p.Decls = []*Decl{{Kind: "gen", Name: name + "G", Params: []Param{{"a", "int"}}, Elem: "int", Body: body}}
+			p.Entries = []*Entry{{Name: name + "G", Kind: "drive", Call: "$P" + name + "G($0)", Elem: "int", Inputs: allInputs(1, 0, 3), Scripts: []string{"std"}}}
+			out = append(out, p)
+		}
+	}
+	return out
+}
+
+func sortStrings(s []string) {
+	for i := 1; i < len(s); i++ {
+		for j := i; j > 0 && s[j] < s[j-1]; j-- {
+			s[j], s[j-1] = s[j-1], s[j]
+		}
+	}
 }
